@@ -833,7 +833,7 @@ func (m *Meta) dropFkeys(mu *metaUpdate, drop *schema.Schema) {
 	for i := range idxs {
 		idx := schema.FindIndex(idxs[i].Columns)
 		fk := idx.Fk
-		if fk.Table == "" || fk.Table == drop.Table {
+		if fk.Table == "" {
 			continue
 		}
 		fkCols := fk.Columns
@@ -841,6 +841,9 @@ func (m *Meta) dropFkeys(mu *metaUpdate, drop *schema.Schema) {
 			fkCols = idx.Columns
 		}
 		target := mu.getSchema(fk.Table)
+		if fk.Table == drop.Table && (target == nil || target.IsTomb()) {
+			continue // self reference and the table itself is being dropped
+		}
 		if target == nil {
 			log.Println("foreign key: can't find", fk.Table, "(from "+drop.Table+")")
 			continue
